@@ -39,6 +39,13 @@ def params(tier, rng):
         mj += [(3, 3, 3), (4, 2, 2), (2, 4, 4), (5, 1, 1), (3, 2, 4)]
     for (m, Q, D) in mj:
         out.append({"kind": "mirjalili", "m": m, "Q": Q, "D": D})
+    # spaces too large to list (> 2^20 rows): sampled rows, every action and event on them
+    out.append({"kind": "demoor", "m": 3, "L": 1, "Q": 101, "D": 2, "fifo": True, "sample": 30, "sample_seed": rng.randrange(10 ** 6)})
+    if tier == "thorough":
+        out.append({"kind": "demoor", "m": 2, "L": 3, "Q": 32, "D": 3, "fifo": False, "sample": 60, "sample_seed": rng.randrange(10 ** 6)})
+        out.append({"kind": "mirjalili", "m": 8, "Q": 5, "D": 1, "sample": 12, "sample_seed": rng.randrange(10 ** 6)})
+        out.append({"kind": "hendrix", "m": 2, "Qa": 40, "Qb": 25, "sample": 1, "sample_seed": rng.randrange(10 ** 6)})
+        out.append({"kind": "forest", "S": 2 ** 20 + 3, "p": 0.25, "sample": 200, "sample_seed": rng.randrange(10 ** 6)})
     for P in out:
         P["coef"] = rng.choice(COEFS[P["kind"]])
     return out
@@ -98,7 +105,7 @@ def run(prop, tier):
     rep.extra.update({"triples_evaluated_on_the_real_transition_function": triples,
                       "triples_with_positive_probability": positive})
     for o in good[:: max(1, len(good) // 4)][:4]:
-        rep.sample({"params": o["P"], "n_states": len(o["states"]), "n_actions": len(o["actions"]),
+        rep.sample({"params": o["P"], "n_states": o["nstates"], "n_actions": len(o["actions"]),
                     "n_events": len(o["events"]), "first_triple": {"state": o["states"][0], "action": o["actions"][0],
                                                                    "event": o["events"][0], "next": o["next"][0], "reward_int": o["rew"][0]}})
     rep.exhaustive = True
